@@ -71,8 +71,50 @@ def rand_scalar(rng):
             return c
 
 
+def midpoint_tok(rng):
+    """a decimal literal at, or a hair off, the midpoint of two adjacent f32 values (the exact decimal
+    expansion of the tie, then one far digit up or down): where single and double rounding differ"""
+    from fractions import Fraction
+    import struct
+    e = rng.randrange(-12, 40)
+    bits = ((e + 127) << 23) | (rng.getrandbits(23) if rng.random() < 0.8 else rng.choice([0, 1, 0x7fffff, 0x7ffffe, 0x400000]))
+    a = Fraction(struct.unpack("<f", struct.pack("<I", bits))[0])
+    b = Fraction(struct.unpack("<f", struct.pack("<I", bits + 1))[0])
+    m = (a + b) / 2
+    ip, fp = divmod(m, 1)
+    digs = ""
+    while fp:
+        fp *= 10
+        d, fp = divmod(fp, 1)
+        digs += str(int(d))
+    ip = str(int(ip))
+    k = rng.randrange(4)
+    if k == 0:                               # the exact tie
+        txt = ip + "." + (digs or "0")
+    elif k == 1:                             # a hair above
+        txt = ip + "." + digs + "0" * rng.randrange(0, 12) + "1"
+    elif k == 2:                             # a hair below: decrement the last digit, pad with 9s
+        whole = ip + digs
+        n = int(whole) - 1
+        w = str(n).rjust(len(whole), "0")
+        txt = w[:len(ip)] + "." + w[len(ip):] + "9" * rng.randrange(1, 14)
+    else:                                    # short of the tie by an f64-visible amount
+        txt = ip + "." + digs[:rng.randrange(0, len(digs) + 1)] + str(rng.randrange(0, 10))
+    return ("-" if rng.random() < 0.3 else "") + txt
+
+
+def case_variant(rng, name):
+    k = rng.randrange(4)
+    if k == 0: return name.lower()
+    if k == 1: return name.capitalize()
+    if k == 2: return "".join(c.lower() if rng.random() < 0.5 else c for c in name)
+    return name.title()
+
+
 def rand_atom_tok(rng, instrs):
-    k = rng.randrange(12)
+    k = rng.randrange(14)
+    if k == 12: return midpoint_tok(rng)
+    if k == 13: return case_variant(rng, rng.choice(instrs))
     if k == 0: return str(rng.choice([0, 1, -1, 7, rand_i32(rng)]))
     if k == 1: return rng.choice(NUMBER_LIKE)
     if k == 2: return rng.choice(["TRUE", "FALSE"])
@@ -116,7 +158,12 @@ def rand_print_atom(rng, instrs, floats, odd):
     if k in (0, 1): return Z(rng.choice([0, 1, -1, rand_i32(rng)]))
     if k == 2: return B(rng.random() < 0.5)
     if k in (3, 4): return I(rng.choice(instrs))
-    if k == 5: return N(rng.choice(PRINT_NAMES))
+    if k == 5:
+        if rng.random() < 0.3:
+            v = case_variant(rng, rng.choice(instrs))
+            if v not in instrs:
+                return N(v)
+        return N(rng.choice(PRINT_NAMES))
     if k == 6 and floats: return F(rng.choice([rand_f32(rng), rng.choice(F32), 0x7fc00000, 0x7f800000, 0xff800000, 0x80000000]))
     if k == 7 and odd:
         j = rng.randrange(6)
